@@ -891,7 +891,7 @@ class Interp:
                 if name in ("append", "extend") and isinstance(recv, Unknown):
                     return [(st, Const(None), None)]
                 if name == "get_remaining_data":
-                    return [(st, Unknown("remaining"), None)]
+                    return [(st, Unknown(f"remaining({desc(recv)})"), None)]
                 # a method on an opaque value (str.encode, list.append ...): pure, may raise only for encode/decode
                 if name in ("encode", "decode"):
                     return self.external_call(f"str.{name}", Unknown("bytes"), st, e)
@@ -948,6 +948,11 @@ class Interp:
             if q in BUILTIN_EXC_PARENTS:
                 return [(st, Obj(q, {"args": TupleV(tuple(pos))}, role="exc"), None)]
             return [(st, Unknown(f"new:{q}"), None)]
+        if q.endswith(".ASN1Reader"):
+            src = pos[0] if pos else Unknown("?")
+            rid = f"reader#{len([e for e in st.effects if e.kind == 'reader']) + 1}"
+            st.effects.append(self.snap(Effect("reader", rid, src, line=e.lineno, text=norm(e)), st))
+            return [(st, Unknown(rid), None)]
         if c.is_enum:
             # EnumCls(value): conversion, ValueError on unknown values
             return self.external_call(f"{q}()", Sym(f"{c.name}({desc(pos[0]) if pos else ''})"), st, e, excs=["ValueError"])
@@ -972,6 +977,8 @@ class Interp:
             raise AnalysisError("isinstance in value context")
         if nm == "set" and not pos:
             return [(st, Unknown("fresh-empty-set"), None)]
+        if nm in ("bytearray", "bytes", "memoryview") and len(pos) == 1:
+            return [(st, Unknown(f"{nm}({desc(pos[0])})"), None)]
         if nm in ("bytearray", "bytes", "list", "dict", "set", "len", "str", "type", "next", "int", "bool", "repr", "memoryview", "id", "sorted", "tuple", "min", "max", "any", "all", "iter", "enumerate", "zip", "range", "hash", "getattr"):
             return [(st, Unknown(nm), None)]
         if nm in ("setattr", "delattr", "exec", "eval", "vars"):
